@@ -44,15 +44,12 @@ func H_C04_pairs() {
 	pair := vChoose(4)
 	v, name := shapeC09(vChoose(nShapes))
 	d, sel, where := placeC04(vChoose(5), v)
-	lit := ""
-	if hasValue(2 * pair) {
-		lit = litC09(2*pair, name)
-	}
 	pos := mustCreate(exprFor(2*pair, sel, "x"))
 	neg := mustCreate(exprFor(2*pair+1, sel, "x"))
 	if hasValue(2 * pair) {
-		setLit(pos, lit)
-		setLit(neg, lit)
+		lit, concrete := litC09(2*pair, name)
+		pos = createWithLit(2*pair, sel, lit, concrete)
+		neg = createWithLit(2*pair+1, sel, lit, concrete)
 	}
 	o1, r1, e1 := evalO(pos, d)
 	o2, r2, e2 := evalO(neg, d)
@@ -67,14 +64,20 @@ func H_C04_pairs() {
 func H_C04_contains() {
 	v, name := shapeC09(vChoose(nShapes))
 	d, sel, where := placeC04(vChoose(5), v)
-	lit := litC09(2, name)
+	lit, concrete := litC09(2, name)
+	x := "x"
+	if concrete {
+		x = `"` + lit + `"`
+	}
 	forms := []string{
-		sel + " contains x", "x in " + sel, "not (" + sel + " not contains x)", "not (x not in " + sel + ")",
+		sel + " contains " + x, x + " in " + sel, "not (" + sel + " not contains " + x + ")", "not (" + x + " not in " + sel + ")",
 	}
 	var o [4]int
 	for i, f := range forms {
 		ev := mustCreate(f)
-		setLitDeep(ev, lit)
+		if !concrete {
+			setLitDeep(ev, lit)
+		}
 		o[i], _, _ = evalO(ev, d)
 		vAssume(o[i] != oPanic)
 	}
